@@ -934,6 +934,174 @@ def standalone_longitude_rule(repo, rep):
     rep.holds('R-RANGE', key, where(f, f.node), 'the stand-alone grid2geo keeps its longitude inside [-180, 180] for zones 1..60, like the library routine')
 
 
+def float_result_rule(repo, rep, mod, q, slots):
+    """the latitude / longitude a conversion returns are FLOATS on every path: the coordinate classes accept `float` or an angle class and
+    nothing else (CoordGeo(lat, 180) raises TypeError), so a branch that substitutes a bare integer literal for a boundary value
+    (`if long == -180: long = 180`) returns the right number in a type the object layer refuses.  Structural: every assignment to a
+    variable returned in one of `slots` has a float-valued right-hand side (a float literal, arithmetic, a call) - not an int literal."""
+    f = repo.func(mod, q)
+    key = 'R-TYPE::%s::%s::float-results' % (f.module.relpath, q)
+    rets = [r for r in ast.walk(f.node) if isinstance(r, ast.Return) and isinstance(r.value, ast.Tuple)]
+    names = {}
+    for r in rets:
+        for k in slots:
+            if k < len(r.value.elts):
+                e = r.value.elts[k]
+                while isinstance(e, (ast.Call, ast.BinOp, ast.UnaryOp)):
+                    # round(x, n), hemisign * round(x, n), -x ...
+                    if isinstance(e, ast.Call):
+                        if not e.args:
+                            break
+                        e = e.args[0]
+                    elif isinstance(e, ast.BinOp):
+                        e = e.right if isinstance(e.right, (ast.Name, ast.Call)) else e.left
+                    else:
+                        e = e.operand
+                if isinstance(e, ast.Name):
+                    names[e.id] = k
+                elif isinstance(e, ast.Constant) and isinstance(e.value, int) and not isinstance(e.value, bool):
+                    rep.violated('R-TYPE', key, where(f, r), '%s returns the integer literal %r in result slot %d' % (q, e.value, k), expected='a float', actual=repr(e.value))
+                    return
+    bad = None
+    for st in ast.walk(f.node):
+        tgt = None
+        if isinstance(st, ast.Assign) and len(st.targets) == 1 and isinstance(st.targets[0], ast.Name):
+            tgt, val = st.targets[0].id, st.value
+        elif isinstance(st, ast.AnnAssign) and isinstance(st.target, ast.Name) and st.value is not None:
+            tgt, val = st.target.id, st.value
+        if tgt in names:
+            vals = [val.body, val.orelse] if isinstance(val, ast.IfExp) else [val]
+            for v in vals:
+                if isinstance(v, ast.UnaryOp):
+                    v = v.operand
+                if isinstance(v, ast.Constant) and isinstance(v.value, int) and not isinstance(v.value, bool):
+                    bad = bad or (st, tgt, v.value)
+    if bad:
+        st, tgt, lit = bad
+        rep.violated('R-TYPE', key, where(f, st), '`%s` hands back the INTEGER %r in result slot %d of %s where every other path returns a float: the coordinate classes accept float or an angle '
+                     'class only - CoordCart.geo(notation=float) / CoordTM.geo(notation=float) raise TypeError for exactly that point' % (stmt_text(st)[:50], lit, names[tgt], q),
+                     expected='%s.0' % lit, actual=stmt_text(st)[:60])
+    elif not names:
+        rep.undecided('R-TYPE', key, where(f, f.node), 'returned latitude / longitude variables of %s not identified' % q)
+    else:
+        rep.holds('R-TYPE', key, where(f, f.node), 'the values %s returns in slots %s are floats on every path (no bare integer literal is substituted)' % (q, list(slots)), work=False)
+
+
+def validated_copy_rule(repo, rep, funcs):
+    """what a guard validates is what the function goes on to use.  `if not 0 <= int(zone) <= 60: raise` checks a COERCED COPY of the
+    argument; when the code below keeps working with the argument itself, a value that passes the check in its coerced form (55.9 -> 55,
+    '56' -> 56, numpy.uint8(56)) is used unconverted - a zone of 55.9 gives the central meridian of no zone at all.  Per function: for every
+    raising test that looks at int(p) / float(p) of a parameter p, either p was rebound to that coercion before (p = int(p): the
+    repository's own idiom) or every later use of p goes through the same coercion."""
+    for mod, q in funcs:
+        f = repo.func(mod, q)
+        key = 'R-GUARD::%s::%s::validated-value-is-used-value' % (f.module.relpath, q)
+        names = set(p.name for p in f.params)
+        bad = None
+        n_guard = 0
+        for g in ast.walk(f.node):
+            if not (isinstance(g, ast.If) and any(isinstance(x, ast.Raise) for x in ast.walk(g))):
+                continue
+            for c in ast.walk(g.test):
+                if isinstance(c, ast.Call) and getattr(c.func, 'id', '') in ('int', 'float') and len(c.args) == 1 and isinstance(c.args[0], ast.Name) and c.args[0].id in names:
+                    pn, fn_ = c.args[0].id, c.func.id
+                    n_guard += 1
+                    rebound = any(isinstance(st, ast.Assign) and len(st.targets) == 1 and isinstance(st.targets[0], ast.Name) and st.targets[0].id == pn and st.lineno <= g.lineno
+                                  for st in ast.walk(f.node))
+                    if rebound:
+                        continue
+                    # loads of p after the guard that are not the argument of the same coercion
+                    wrapped = set()
+                    for c2 in ast.walk(f.node):
+                        if isinstance(c2, ast.Call) and getattr(c2.func, 'id', '') in ('int', 'float') and len(c2.args) == 1 and isinstance(c2.args[0], ast.Name) and c2.args[0].id == pn:
+                            wrapped.add(id(c2.args[0]))
+                    raw = [n for n in ast.walk(f.node) if isinstance(n, ast.Name) and n.id == pn and isinstance(n.ctx, ast.Load) and id(n) not in wrapped
+                           and n.lineno > getattr(g, 'end_lineno', g.lineno)]
+                    later_rebind = [st for st in ast.walk(f.node) if isinstance(st, ast.Assign) and len(st.targets) == 1 and isinstance(st.targets[0], ast.Name) and st.targets[0].id == pn
+                                    and st.lineno > g.lineno]
+                    raw = [n for n in raw if not any(st.lineno < n.lineno for st in later_rebind)]
+                    if raw and bad is None:
+                        bad = (g, c, raw[0], pn, fn_)
+        if bad:
+            g, c, r0, pn, fn_ = bad
+            rep.violated('R-GUARD', key, where(f, r0), 'the guard `%s` validates %s(%s), but line %d goes on to use `%s` itself: a value that passes in its coerced form (55.9 -> 55, a string '
+                         'of digits, a narrow numpy integer) is used unconverted - zone 55.9 selects a central meridian 5.4 degrees off instead of being truncated to zone 55 as the validation '
+                         'assumes' % (stmt_text(g.test)[:60], fn_, pn, r0.lineno, pn), expected='%s = %s(%s) before the checks' % (pn, fn_, pn), actual=stmt_text(g.test)[:80])
+        else:
+            rep.holds('R-GUARD', key, where(f, f.node), 'every guard of %s validates the value the function goes on to use%s' % (q, '' if n_guard else ' (no guard looks at a coerced copy)'), work=False)
+
+
+def numeric_type_rule(repo, rep, funcs, opaque=()):
+    """a number is a number: the result of a conversion must not depend on WHICH Python type carries a numeric argument.  A test
+    `isinstance(x, (int, float))` / `type(x) == float` on a parameter that holds a height, a coordinate or a parameter value is false for
+    numpy integers and 32-bit floats (elements of an array of heights) and for Fractions / Decimals: such values silently take the other
+    branch - here, 'no height given'.  The functions are evaluated with plain symbols for their numeric parameters; every branch
+    condition met (path conditions of calls, raising tests, conditional values) that tests the TYPE of one of those symbols against the
+    builtin number types is reported.  Tests against the repository's own classes (angle classes) are dispatch, not this."""
+    from ..symval import Evaluator, NONE
+    for mod, q in funcs:
+        f = repo.func(mod, q)
+        key = 'R-TYPE::%s::%s::numeric-type-test' % (f.module.relpath, q)
+        hits = []
+        names = [p.name for p in f.params]
+        for n in ast.walk(f.node):
+            if isinstance(n, ast.Call) and getattr(n.func, 'id', '') == 'isinstance' and len(n.args) == 2 and isinstance(n.args[0], ast.Name) and n.args[0].id in names:
+                tys = n.args[1].elts if isinstance(n.args[1], (ast.Tuple, ast.List)) else [n.args[1]]
+                if tys and all(isinstance(t, ast.Name) and t.id in ('int', 'float', 'complex') for t in tys):
+                    hits.append((n, n.args[0].id))
+            if isinstance(n, ast.Compare) and len(n.ops) == 1 and isinstance(n.ops[0], (ast.Eq, ast.NotEq, ast.Is, ast.IsNot, ast.In, ast.NotIn)) and isinstance(n.left, ast.Call) \
+                    and getattr(n.left.func, 'id', '') == 'type' and n.left.args and isinstance(n.left.args[0], ast.Name) and n.left.args[0].id in names:
+                r_ = n.comparators[0]
+                tys = r_.elts if isinstance(r_, (ast.Tuple, ast.List)) else [r_]
+                if tys and all(isinstance(t, ast.Name) and t.id in ('int', 'float', 'complex') for t in tys):
+                    hits.append((n, n.left.args[0].id))
+        # only tests that steer control flow / a value (inside an if / while test, a conditional expression, a boolean assigned and tested)
+        if hits:
+            n, pn = hits[0]
+            rep.violated('R-TYPE', key, where(f, n), '`%s` tests the Python type of the numeric argument `%s` against the builtin number types: a numpy integer or 32-bit float (an element of an '
+                         'array of heights), a Fraction or a Decimal is a number and fails the test - it is silently treated like a missing value / takes the other branch' % (stmt_text(n)[:60], pn),
+                         expected='the value tested (is None / is False), not its type', actual=stmt_text(n)[:80])
+        else:
+            rep.holds('R-TYPE', key, where(f, f.node), '%s does not branch on the builtin number type of a numeric argument' % q, work=False)
+
+
+def identity_compare_rule(repo, rep, modname):
+    """`x is <string or number>` asks whether x is THAT OBJECT, not whether it has that value: a string parsed from a request, read from a
+    file or built by concatenation equals 'dd' and is another object (CPython interns only some literals), so the test silently takes
+    the other branch for the spelled-out value and the default branch only when the default OBJECT itself was handed through.  None,
+    True, False, classes and functions are unique objects and may be compared by identity.  One instance per identity comparison whose
+    right-hand side is (a name of) a string / number literal."""
+    m = repo.module(modname)
+    consts = {}
+    for st in m.tree.body:
+        if isinstance(st, ast.Assign) and len(st.targets) == 1 and isinstance(st.targets[0], ast.Name) and isinstance(st.value, ast.Constant) \
+                and isinstance(st.value.value, (str, int, float, bytes)) and not isinstance(st.value.value, bool):
+            consts[st.targets[0].id] = st.value.value
+    n = 0
+    for f in m.all_functions():
+        for c in ast.walk(f.node):
+            if not (isinstance(c, ast.Compare) and any(isinstance(o, (ast.Is, ast.IsNot)) for o in c.ops)):
+                continue
+            operands = [c.left] + list(c.comparators)
+            for k, o in enumerate(c.ops):
+                if not isinstance(o, (ast.Is, ast.IsNot)):
+                    continue
+                for side in (operands[k], operands[k + 1]):
+                    lit = None
+                    if isinstance(side, ast.Constant) and isinstance(side.value, (str, int, float, bytes)) and not isinstance(side.value, bool):
+                        lit = side.value
+                    elif isinstance(side, ast.Name) and side.id in consts and side.id not in [p.name for p in f.params]:
+                        lit = consts[side.id]
+                    if lit is None:
+                        continue
+                    n += 1
+                    rep.violated('R-TYPE', 'R-TYPE::%s::%s::identity-test::%s' % (m.relpath, f.qualname, stmt_text(c)[:50]), where(f, c), '`%s` compares by IDENTITY with the %s %r: a value '
+                                 'that is equal but not that very object (a string taken from the query, a computed number) fails the test - the explicitly spelled value and the '
+                                 'omitted default take different branches' % (stmt_text(c)[:70], type(lit).__name__, lit), expected='==', actual=stmt_text(c)[:80])
+    if n == 0:
+        rep.holds('R-TYPE', 'R-TYPE::%s::identity-tests' % m.relpath, '%s:1' % m.relpath, 'no identity comparison against a string or number in %s' % m.relpath)
+
+
 def identity_flag_rule(repo, rep, modname):
     """a parameter that the callee tests by IDENTITY (`flag is False`, `flag is None`) must be handed True / False / None themselves: the
     result of a comparison is a bool only for Python numbers - for numpy scalars (an np.float64 taken from an array is a float) it is a
